@@ -23,6 +23,10 @@ type c07Unit struct {
 	Size  int64  `json:"size"` // shares outstanding at the root
 	First int    `json:"first"`
 	Depth int    `json:"depth"`
+	// Hist "emptied": a NON-INITIAL vault — after the root was built the epoch snapshot was taken by the
+	// real BeginBlocker, the borrower repaid everything and every lender left (supply 0): the state a
+	// vault is in when it starts its second life
+	Hist string `json:"hist,omitempty"`
 }
 
 type c07Op struct {
@@ -55,6 +59,8 @@ func c07Ops() []c07Op {
 	// a voting period; and one drafted now
 	ops = append(ops, c07Op{"gov.update_params(drafted_at_start)", "gov", "", 0}, c07Op{"gov.update_params(drafted_now)", "gov", "", 1})
 	ops = append(ops, c07Op{"accrue(1d)", "accrue", "", 86400}, c07Op{"repay(half)", "repay", "", 2}, c07Op{"repay(all)", "repay", "", 1})
+	// the module's real BeginBlocker (epoch snapshot of interest rate and redemption rate)
+	ops = append(ops, c07Op{"begin_block", "begin", "", 0})
 	return ops
 }
 
@@ -242,6 +248,16 @@ func (r *c07Run) apply(ctx sdk.Context, op c07Op, path []string) {
 			bad("gov_params_update_moved_vault_value", "", fmt.Sprintf("%s changed TotalValue %s -> %s", op.Name, pre.tv, post.tv))
 		}
 		r.others(pre, post, op, allow, bad)
+	case "begin":
+		func() {
+			defer func() { recover() }()
+			k.BeginBlocker(ctx)
+		}()
+		post := r.observe(ctx)
+		r.st.Clauses["begin_block"]++
+		if !post.tv.Equal(pre.tv) || !post.supply.Equal(pre.supply) {
+			bad("begin_block_moved_vault_value_or_supply", "", fmt.Sprintf("BeginBlocker changed TotalValue %s -> %s, supply %s -> %s", pre.tv, post.tv, pre.supply, post.supply))
+		}
 	case "accrue":
 		nctx := ctx.WithBlockTime(ctx.BlockTime().Add(time.Duration(op.Amt) * time.Second)).WithBlockHeight(ctx.BlockHeight() + 1)
 		c, write := nctx.CacheContext()
@@ -324,7 +340,8 @@ func (r *c07Run) others(pre, post c07Obs, op c07Op, allow *big.Rat, bad func(str
 
 func (r *c07Run) key(ctx sdk.Context) string {
 	o := r.observe(ctx)
-	return fmt.Sprintf("%s|%s|%s|%s|%s|%s|%d", o.tv, o.supply, o.cash, o.shares["A"], o.shares["B"], o.debt, ctx.BlockTime().Unix())
+	p := r.w.App.StablestakeKeeper.GetParams(ctx)
+	return fmt.Sprintf("%s|%s|%s|%s|%s|%s|%d|%s|%s", o.tv, o.supply, o.cash, o.shares["A"], o.shares["B"], o.debt, ctx.BlockTime().Unix(), p.InterestRate, p.RedemptionRate)
 }
 
 func (r *c07Run) dfs(ctx sdk.Context, depth, maxDepth int, path []string, first int) {
@@ -349,7 +366,7 @@ func (r *c07Run) dfs(ctx sdk.Context, depth, maxDepth int, path []string, first 
 		}
 		r.st.Clauses["discarded_branch_isolation"]++
 		if fp := r.key(ctx); fp != fp0 {
-			r.find(Finding{Clause: "discarded_branch_changed_what_the_parent_sees", Culprit: r.ops[last].Kind, Disc: "", Detail: fmt.Sprintf("after exploring and DISCARDING the branch of op %s, the vault reads differently on the untouched parent state (TotalValue|supply|cash|sharesA|sharesB|debt|time):\nbefore: %s\nafter:  %s", r.ops[last].Name, fp0, fp)}, append(append([]string{r.name}, path...), "discard:"+r.ops[last].Name))
+			r.find(Finding{Clause: "discarded_branch_changed_what_the_parent_sees", Culprit: r.ops[last].Kind, Disc: "", Detail: fmt.Sprintf("after exploring and DISCARDING the branch of op %s, the vault reads differently on the untouched parent state (TotalValue|supply|cash|sharesA|sharesB|debt|time|interest rate|rate snapshot):\nbefore: %s\nafter:  %s", r.ops[last].Name, fp0, fp)}, append(append([]string{r.name}, path...), "discard:"+r.ops[last].Name))
 			r.st.Polluted = true
 			r.st.Incomplete = true
 		}
@@ -445,12 +462,37 @@ func (r *c07Run) root(u c07Unit) (sdk.Context, error) {
 	if err := r.deliver(base, &sstypes.MsgBond{Creator: r.addr["B"].String(), Amount: I(u.Size / 10)}); err != nil {
 		return base, fmt.Errorf("root bond B: %w", err)
 	}
+	if u.Hist == "emptied" {
+		k.BeginBlocker(base)
+		for _, d := range k.GetAllDebts(base) {
+			if d.Address == r.addr["X"].String() {
+				owed := d.Borrowed.Add(d.InterestStacked).Sub(d.InterestPaid)
+				if owed.IsPositive() {
+					if err := k.Repay(base, r.addr["X"], sdk.NewCoin("uusdc", owed)); err != nil {
+						return base, fmt.Errorf("root repay: %w", err)
+					}
+				}
+			}
+		}
+		for _, who := range []string{"A", "B"} {
+			cm := w.App.CommitmentKeeper.GetCommitments(base, r.addr[who])
+			have := cm.GetCommittedAmountForDenom(sstypes.GetShareDenom())
+			if have.IsPositive() {
+				if err := r.deliver(base, &sstypes.MsgUnbond{Creator: r.addr[who].String(), Amount: have}); err != nil {
+					return base, fmt.Errorf("root unbond %s: %w", who, err)
+				}
+			}
+		}
+	}
 	return base, nil
 }
 
 func c07RunUnit(w *World, u c07Unit, deadline time.Time, fixed []string) *KStats {
 	r := &c07Run{w: w, st: &KStats{Clauses: map[string]int64{}}, keys: map[string]bool{}, deadline: deadline, ops: c07Ops()}
 	r.name = fmt.Sprintf("vault:rate=%s,size=%d", u.Rate, u.Size)
+	if u.Hist != "" {
+		r.name += ",hist=" + u.Hist
+	}
 	r.addr = map[string]sdk.AccAddress{"A": w.A("q5").Addr, "B": w.A("q6").Addr, "X": w.A("q7").Addr}
 	base, err := r.root(u)
 	if err != nil {
@@ -512,6 +554,10 @@ func c07RunUnit(w *World, u c07Unit, deadline time.Time, fixed []string) *KStats
 func c07Parse(s string) c07Unit {
 	var u c07Unit
 	s = strings.TrimPrefix(s, "vault:rate=")
+	if i := strings.Index(s, ",hist="); i >= 0 {
+		u.Hist = s[i+len(",hist="):]
+		s = s[:i]
+	}
 	parts := strings.Split(s, ",size=")
 	if len(parts) == 2 {
 		u.Rate = parts[0]
@@ -533,6 +579,9 @@ func RunC07(tier string) int {
 			}
 			for i := range c07Ops() {
 				units = append(units, c07Unit{Rate: rt, Size: sz, First: i, Depth: depth})
+				if rt != "1" {
+					units = append(units, c07Unit{Rate: rt, Size: sz, First: i, Depth: depth, Hist: "emptied"})
+				}
 			}
 		}
 	}
@@ -542,8 +591,8 @@ func RunC07(tier string) int {
 	for _, o := range c07Ops() {
 		names = append(names, o.Name)
 	}
-	bounds := map[string]interface{}{"redemption_rates": c07Rates, "vault_sizes(shares)": c07Sizes, "ops": names, "depth": depth, "lenders": []string{"A (majority)", "B (10%)"}, "borrower": "one address driving the real keeper Borrow/Repay"}
-	return KConclude("C07", tier, "K: exhaustive op sequences on the real stablestake handlers/keeper (CacheContext tree) vs exact rationals", "all sequences of length <= depth over {A/B bond a, A/B unbond s, borrow at cap-1/cap/cap+1, accrue a day of interest, repay half/all} from 15 vault states (5 redemption rates x 3 sizes); every bond is additionally followed, on a discarded branch, by the immediate unbond of the minted shares",
+	bounds := map[string]interface{}{"redemption_rates": c07Rates, "vault_sizes(shares)": c07Sizes, "ops": names, "depth": depth, "histories": []string{"fresh", "emptied after interest (rates > 1)"}, "lenders": []string{"A (majority)", "B (10%)"}, "borrower": "one address driving the real keeper Borrow/Repay"}
+	return KConclude("C07", tier, "K: exhaustive op sequences on the real stablestake handlers/keeper (CacheContext tree) vs exact rationals", "all sequences of length <= depth over {A/B bond a, A/B unbond s, borrow at cap-1/cap/cap+1, accrue a day of interest, repay half/all} from 27 vault states (5 redemption rates x 3 sizes, and for the 4 rates above 1 also the EMPTIED vault: epoch snapshot taken by the real BeginBlocker, loan repaid, every lender gone); every bond is additionally followed, on a discarded branch, by the immediate unbond of the minted shares",
 		[]string{"vault root states are constructed by real Bond/Borrow plus interest stacked the way UpdateInterestStacked does (chosen amount) instead of waiting years of block time", "allowance of one share's worth = ceil(rate) base units"}, sum, bounds,
 		func(f KFinding) bool {
 			path, ok := toStrings(f.Input)
